@@ -525,7 +525,7 @@ class DocumentMapper:
         try:
             pattern = self._make_fuzzy_regex(target_text)
             match = re.search(pattern, self.full_text)
-            if match:
+            if match and match.end() > match.start():
                 return match.start(), match.end() - match.start()
         except re.error:
             pass
